@@ -270,8 +270,8 @@ Proof.
     apply negb_true_iff. destruct (Qle_bool delta (Qabs (q - q))) eqn:E; [|reflexivity].
     apply Qle_bool_iff in E. assert (Z : Qabs (q - q) == 0) by (rewrite <- Qabs_wd with (x := 0); [reflexivity|ring]).
     rewrite Z in E. exfalso. apply (Qlt_not_le _ _ Hd E).
-  - destruct s; try (cbn in C; discriminate); try (cbn in Hs; discriminate); cbn [speq qof]; try apply Qeq_bool_refl; try reflexivity.
-    destruct exact; apply Nat.eqb_refl.
+  - destruct s; try (cbn in C; discriminate); try (cbn in Hs; discriminate); cbn [speq qof]; try apply Qeq_bool_refl; try reflexivity;
+      destruct exact; apply Nat.eqb_refl.
 Qed.
 
 Lemma sets_eq_refl R x : (forall a, In a x -> R a a = true) -> sets_eq R x x = true.
